@@ -605,7 +605,7 @@ def r03f(model, ctx):
                 filt = {unparse(c) for c in src.generators[0].ifs}
                 # a generator is evaluated lazily (one test per element, against the subfragment as it is then); a list is built first
                 ok = f"{v} not in subfrag.domains" in filt and unparse(src.elt) == v and unparse(lp.target) == "domain"
-            elif src is not None and not conds:
+            elif isinstance(src, ast.Name) and not conds:
                 need(False, "Fragment._propagate_domains_down: unrecognised source of the domains that are added")
     ctx.check(ok, R, "Fragment._propagate_domains_down", "a parent's domain is added only where the subfragment has none of that name",
               "a subfragment that defines a domain itself must keep it: the parent's domain of the same name may only be added "
